@@ -214,6 +214,8 @@ def run(ctx):
     bad = monitor(ctx, e2e_pairs)
     for b in bad[:8]:
         ctx.finding("crystal:%d:%s" % (b["group"], b["letter"]), "group %d letter %s: %s" % (b["group"], b["letter"], b["complaints"][0]), {"kind": "failing-input", "case": b})
+    import analyzer_hist
+    analyzer_hist.check(ctx, "C08", broken)
     if broken and not ctx.findings:
         ctx.finding("unproved", "proof/correspondence broken, no failing input found", {"kind": "broken-obligation", "broken": broken}, found_input=False)
     ctx.coverage["broken"] = [{"what": k, "info": i} for k, i in broken]
